@@ -27,21 +27,31 @@
 (* NewReport ; RespondFail ; NewReport (MC_Usage_unpatched.cfg, not part   *)
 (* of the check).                                                          *)
 (*                                                                         *)
-(* Left open by the property and therefore nondeterministic here: whether  *)
-(* a report whose usage is all zero is sent or skipped ("no data").        *)
+(* Left open by the property: whether a report whose usage is all zero is  *)
+(* sent or skipped ("no data").  ZeroReports = "keys" is what the code     *)
+(* does (the two maps are Go maps; a report is built iff either has a key, *)
+(* and Add creates a key even for a zero delta), so an absent key is       *)
+(* modelled as -1; ZeroReports = "never" is the other natural convention   *)
+(* (no report unless some usage is non-zero).  The check accepts either.   *)
 (***************************************************************************)
 EXTENDS Integers, FiniteSets, TLC, Json
 
 CONSTANTS Signals,    \* set of strings
           MaxCum,     \* horizon of each cumulative counter
           Steps,      \* growth increments
-          Overwrite   \* FALSE: property / patched code; TRUE: unpatched code
+          Overwrite,  \* FALSE: property / patched code; TRUE: unpatched code
+          ZeroReports \* "keys" | "never"
 
 VARIABLES cum, seen, cur, pend, rep, phase, res, delivered, act
 
 vars == <<cum, seen, cur, pend, rep, phase, res, delivered, act>>
 
 Zero == [s \in Signals |-> 0]
+
+\* an absent map key, and the usage a map entry stands for
+None == IF ZeroReports = "keys" THEN 0 - 1 ELSE 0
+Empty == [s \in Signals |-> None]
+V(x) == IF x < 0 THEN 0 ELSE x
 
 Phases == {"idle", "offered", "waitprev", "offered2", "accepted"}
 Results == {"none", "nodata", "fail", "ok"}
@@ -52,7 +62,7 @@ Abs == [ phase     |-> phase,
          delivered |-> delivered,    \* usage per signal in acknowledged messages
          res       |-> res ]         \* outcome of the last finished sendUsageReport
 
-Init == /\ cum = Zero /\ seen = Zero /\ cur = Zero /\ pend = Zero /\ rep = Zero
+Init == /\ cum = Zero /\ seen = Zero /\ cur = Empty /\ pend = Empty /\ rep = Zero
         /\ delivered = Zero
         /\ phase = "idle" /\ res = "none"
         /\ act = [name |-> "Init"]
@@ -65,12 +75,13 @@ Grow(s, d) == /\ cum[s] + d <= MaxCum
 
 \* healthCheck: usageTracker.Add(s, metrics.Get(...)); a zero reading is ignored
 Sample(s) == /\ IF cum[s] = 0 THEN UNCHANGED <<cur, seen>>
-                ELSE /\ cur' = [cur EXCEPT ![s] = @ + (cum[s] - seen[s])]
+                ELSE /\ cur' = [cur EXCEPT ![s] = V(@) + (cum[s] - seen[s])]
                      /\ seen' = [seen EXCEPT ![s] = cum[s]]
              /\ UNCHANGED <<cum, pend, rep, phase, res, delivered>>
              /\ act' = [name |-> "Sample", s |-> s]
 
-NothingToReport == \A s \in Signals : cur[s] + pend[s] = 0
+NothingToReport == IF ZeroReports = "keys" THEN cur = Empty /\ pend = Empty
+                   ELSE \A s \in Signals : V(cur[s]) + V(pend[s]) = 0
 
 \* sendUsageReport starts: usageTracker.NewReport, then the message is offered to the client
 NewReport ==
@@ -78,9 +89,11 @@ NewReport ==
   /\ \/ /\ NothingToReport                      \* errNoData
         /\ res' = "nodata"
         /\ UNCHANGED <<cur, pend, rep, phase>>
-     \/ /\ rep' = [s \in Signals |-> cur[s] + pend[s]]
-        /\ pend' = IF Overwrite THEN cur ELSE [s \in Signals |-> pend[s] + cur[s]]
-        /\ cur' = Zero
+     \/ /\ ~NothingToReport
+        /\ rep' = [s \in Signals |-> V(cur[s]) + V(pend[s])]
+        /\ pend' = IF Overwrite THEN cur
+                   ELSE [s \in Signals |-> IF cur[s] = None THEN pend[s] ELSE V(pend[s]) + V(cur[s])]
+        /\ cur' = Empty
         /\ phase' = "offered"
         /\ res' = "none"
   /\ UNCHANGED <<cum, seen, delivered>>
@@ -117,7 +130,7 @@ Accept == /\ phase \in {"offered", "offered2"}
 \* the accepted message has been sent: completeSend clears lastDataPoints
 Ack == /\ phase = "accepted"
        /\ delivered' = [s \in Signals |-> delivered[s] + rep[s]]
-       /\ pend' = Zero
+       /\ pend' = Empty
        /\ rep' = Zero
        /\ phase' = "idle" /\ res' = "ok"
        /\ UNCHANGED <<cum, seen, cur>>
@@ -137,16 +150,16 @@ TypeOK == /\ cum \in [Signals -> 0 .. MaxCum] /\ seen \in [Signals -> 0 .. MaxCu
 \* C34: delivered usage = growth of the counters minus what is still waiting
 \* (not sampled yet, not reported yet, reported but unconfirmed)
 Conservation ==
-  \A s \in Signals : delivered[s] + pend[s] + cur[s] + (cum[s] - seen[s]) = cum[s]
+  \A s \in Signals : delivered[s] + V(pend[s]) + V(cur[s]) + (cum[s] - seen[s]) = cum[s]
 
 \* C34: no negative usage anywhere, in particular in no report
-NonNegative == \A s \in Signals : rep[s] >= 0 /\ cur[s] >= 0 /\ pend[s] >= 0 /\ delivered[s] >= 0
+NonNegative == \A s \in Signals : rep[s] >= 0 /\ cur[s] >= None /\ pend[s] >= None /\ delivered[s] >= 0
 
 \* C34: nothing is counted twice
 NoDoubleCount == \A s \in Signals : delivered[s] <= cum[s]
 
 \* the message being sent carries exactly the unconfirmed usage
-InFlightIsPending == phase # "idle" => rep = pend
+InFlightIsPending == phase # "idle" => \A s \in Signals : rep[s] = V(pend[s])
 
 DeliveredMonotone == [][\A s \in Signals : delivered'[s] >= delivered[s]]_vars
 
